@@ -148,6 +148,15 @@ class MaskFunction(Contract):
 def tonumpy_apply(ex, p, node):
     """contract of tonumpy at a call site (proved in contracts/leading.py): requires constant, returns the constant term"""
     ctx = ex.ctx
+    src = getattr(p, "constant_of", None)
+    if src is not None:
+        # the constant polynomial built from a numeric array: tonumpy gives the numbers back (fresh copy)
+        from engine.polymodel import _freeze
+        a = Arr(src.shape, _freeze(src), src.kind, src.dtype, Region("fresh"))
+        for attr in ("int_valued",):
+            if hasattr(src, attr):
+                setattr(a, attr, getattr(src, attr))
+        return a
     ex.oblige(f"pre({ex.site('tonumpy')}).constant", IsConstant.spec(ctx, p), "precondition", node,
               note="tonumpy raises FeatureNotSupported for a non-constant polynomial")
     cf = ctx.func("constant_of", Idx, R)
